@@ -74,7 +74,12 @@ func collectClosure(funcLit *ast.FuncLit, pass *analysishelper.EnhancedPass, clo
 			// Get the underlying object for the identifier
 			obj, ok := pass.TypesInfo.ObjectOf(node).(*types.Var)
 			if !ok {
-				panic(fmt.Sprintf("identifier %s passed as a variable could not be looked up as one", node))
+				// The syntactic resolution (node.Obj) says this is a variable, but the type checker
+				// has no object for it: this happens for the symbolic variable of a type switch
+				// (`switch t := x.(type)`), which is only declared implicitly in each clause. Its
+				// uses inside the clauses are resolved to those implicit variables, so we can
+				// simply skip the declaring identifier.
+				return false
 			}
 
 			// Skip if node is a global variable
